@@ -411,9 +411,10 @@ pub proof fn lemma_blob(l: Layout)
          "ensures": [
              "final(self).inv() && final(self).same_config(old(self))",
              "final(self).latest_field_layout == old(self).latest_field_layout && final(self).last_field_was_bitfield == old(self).last_field_was_bitfield",
-             "(old(self).is_packed || old(self).comp.spec_is_union() || unit_offset.is_none() || unit_offset.unwrap() / 8 <= old(self).latest_offset) ==> r.is_none() && final(self).latest_offset == old(self).latest_offset",
-             # PLACEMENT THEOREM for bit-field units (C02/C03): the byte-aligned unit that follows lands at the C offset
-             "(!old(self).is_packed && !old(self).comp.spec_is_union() && unit_offset.is_some() && unit_offset.unwrap() / 8 >= old(self).latest_offset) ==> place_after(old(self).latest_offset as int, r, 1) == unit_offset.unwrap() / 8 && final(self).latest_offset == unit_offset.unwrap() / 8",
+             "(old(self).comp.spec_is_union() || unit_offset.is_none() || unit_offset.unwrap() / 8 <= old(self).latest_offset) ==> r.is_none() && final(self).latest_offset == old(self).latest_offset",
+             # PLACEMENT THEOREM for bit-field units (C02/C03): the byte-aligned unit that follows lands at the C offset --
+             # in packed records too (a `:0` separator opens a gap there as well): failed for packed on the unchanged tree, finding F15, repaired
+             "(!old(self).comp.spec_is_union() && unit_offset.is_some() && unit_offset.unwrap() / 8 >= old(self).latest_offset) ==> place_after(old(self).latest_offset as int, r, 1) == unit_offset.unwrap() / 8 && final(self).latest_offset == unit_offset.unwrap() / 8",
          ],
          "proof_start": "reveal_with_fuel(is_pow2, 2);"},
         {"kind": "fn", "file": SL, "name": "saw_bitfield_unit", **TR,
@@ -452,6 +453,10 @@ pub proof fn lemma_blob(l: Layout)
              "final(self).inv() && final(self).same_config(old(self))",
              "!old(self).ctx.spec_options().force_explicit_padding ==> r.is_none()",
              "r.is_some() ==> ty_size(field_ty(r.unwrap())) == comp_layout.size - old(self).latest_offset && ty_align(field_ty(r.unwrap())) == 1",
+             # the running offset is the end of what has been emitted (C02: otherwise pad_struct pads the same bytes again) --
+             # failed on the unchanged tree: finding F14, repaired
+             "final(self).latest_offset as int == end_after(old(self).latest_offset as int, r)",
+             "r.is_some() ==> final(self).latest_offset == comp_layout.size",
          ]},
         {"kind": "fn", "file": SL, "name": "pad_struct", **TR, "ret": "r",
          "subst": [("Option<proc_macro2::TokenStream>", "Option<Tok>", 1, "R4")],
